@@ -784,6 +784,9 @@ impl rustc_driver::Callbacks for Cb {
                             ("module", esc(&cx.path(if scope == "mod" { par } else { nearest_mod(tcx, id) }))),
                             ("owner", esc(&cx.path(par))),
                             ("span", cx.span(tcx.def_span(did))),
+                            // a const / static whose initialiser was written by the user (root syntax context)
+                            ("init_user", b(matches!(kind, DefKind::Const { .. } | DefKind::Static { .. })
+                                && tcx.hir_maybe_body_owned_by(id).map_or(false, |bd| !bd.value.span.from_expansion()))),
                         ]));
                     }
                 }
